@@ -133,8 +133,10 @@ def tmp_worktree(repo: str | Path = ".", ref: str = "HEAD") -> Iterator[Path]:
             # is unknown or when a branch with the temporary name already exists (it is not ours).
             if os.path.exists(location):
                 # Force removal: loading can leave untracked files in the worktree (bytecode caches for example).
+                # Force it twice: Git keeps a worktree locked while populating it, and the lock stays
+                # when Git is killed at that moment (a single --force refuses to remove locked worktrees).
                 subprocess.run(
-                    ["git", "-C", repo, "worktree", "remove", "--force", location],
+                    ["git", "-C", repo, "worktree", "remove", "--force", "--force", location],
                     stdout=subprocess.DEVNULL,
                     check=False,
                 )
